@@ -167,6 +167,7 @@ def is_sym(x):
 class SBool:
     __slots__ = ("e",)
     _sx_symbolic = True
+    _sx_types = (bool,)
 
     def __init__(self, e):
         self.e = e
